@@ -259,13 +259,24 @@ Definition pathmatch_fuel (fuel : positive) (pattern path base : str) (isdir : b
   else if negb (dir_mismatch pattern isdir) && str_eqb pattern path then Some true
   else match_loop fuel (is_real pattern) (iter_pattern pattern base) (path_seen pattern path base isdir).
 
-Definition pm_fuel (pattern path base : str) : positive :=
-  let a := N.of_nat (length pattern + length base) + 2 in
-  let b := N.of_nat (length path + length base) + 2 in
-  N.succ_pos (a * b * b * 64).
+(* a fuel that always suffices (Path/Termination.v): with L = |t|, B = L + 1 and
+   W = (|s| + 1) * B ^ (number of '*' in s), at most W + L * (W + 1) iterations
+   are made.  Binary, so its size costs nothing; the loop stops at the answer. *)
+Fixpoint nstars (s : str) : nat :=
+  match s with
+  | [] => 0%nat
+  | c :: s' => ((if N.eqb c STAR then 1 else 0) + nstars s')%nat
+  end.
+
+Definition loop_weight_N (s t : str) : N :=
+  (N.of_nat (length s) + 1) * (N.of_nat (length t) + 1) ^ N.of_nat (nstars s).
+
+Definition loop_fuel (s t : str) : positive :=
+  N.succ_pos (loop_weight_N s t + N.of_nat (length t) * (loop_weight_N s t + 1)).
 
 Definition pathmatch_model (pattern path base : str) (isdir : bool) : option bool :=
-  pathmatch_fuel (pm_fuel pattern path base) pattern path base isdir.
+  pathmatch_fuel (loop_fuel (iter_pattern pattern base) (path_seen pattern path base isdir))
+                 pattern path base isdir.
 
 (* PathMatch(patterns, basepath).match(path, mode): std::any_of, left to right *)
 Fixpoint pathmatch_any (patterns : list str) (path base : str) (isdir : bool) : option bool :=
